@@ -174,11 +174,25 @@ func writersFamily(seed uint64, tier string, args []string) {
 			}
 		}
 	}()
-	wg.Wait()
-	closer()
+	finished := make(chan struct{})
+	go func() { wg.Wait(); close(finished) }()
+	stuck := false
+	select {
+	case <-finished:
+		closer()
+	case <-time.After(dur + 10*time.Second):
+		// a caller that is still waiting 10s after the workload ended was never answered: its request or its response
+		// did not make it across the connection intact
+		stuck = true
+	}
 	jsonrpc.VerifSetHook(nil)
 	out := map[string]interface{}{"calls": calls, "bad": bad, "connerrs": connerrs, "seed": seed, "duration_ms": dur.Milliseconds()}
-	if b := firstBad.Load(); b != nil {
+	if stuck {
+		out["oracle_fail"] = "under concurrent writers some calls were never answered (still blocked 10s after the workload ended): a message was lost or corrupted on the wire"
+		if b := firstBad.Load(); b != nil {
+			out["oracle_fail"] = out["oracle_fail"].(string) + "; first wrong result: " + b.(string)
+		}
+	} else if b := firstBad.Load(); b != nil {
 		out["oracle_fail"] = "under concurrent writers a call returned a wrong result (corrupted or misrouted frame): " + b.(string)
 	}
 	emit(out)
